@@ -119,7 +119,12 @@ def compare(A, B, target, model: Model, *, val_opts=None, timeout_ms=20000,
         T = sorted(tobjB)
     pairs, taus = [], []
     n_undefined = n_trivial = 0
-    for n, tau in enumerate(model.assignments(T)):
+    all_tau = model.assignments(T)
+    if max_assignments is not None:
+        # a bounded number of assignments: those that give all targets different orbitals
+        # first (repeated orbitals mostly hit entries that vanish by antisymmetry)
+        all_tau = sorted(all_tau, key=lambda t: -len(set(t.values())))
+    for n, tau in enumerate(all_tau):
         if max_assignments is not None and len(pairs) >= max_assignments:
             break
         tauA = tau if mapB is None else {mapB[k]: o for k, o in tau.items()}
